@@ -161,7 +161,7 @@ pub struct Supervisor {
     args: Vec<String>,
     /// address-space limit for the worker in KiB (0 = none), applied with `ulimit -v`
     pub vlimit_kb: u64,
-    child: Option<(Child, ChildStdin, Receiver<String>, Arc<Mutex<Vec<u8>>>)>,
+    child: Option<(Child, ChildStdin, Receiver<String>, Arc<Mutex<Vec<u8>>>, std::thread::JoinHandle<()>)>,
     pub restarts: usize,
 }
 
@@ -207,7 +207,7 @@ impl Supervisor {
         });
         let errbuf = Arc::new(Mutex::new(Vec::<u8>::new()));
         let eb = errbuf.clone();
-        std::thread::spawn(move || {
+        let errthread = std::thread::spawn(move || {
             let mut buf = [0u8; 4096];
             loop {
                 match stderr.read(&mut buf) {
@@ -223,15 +223,17 @@ impl Supervisor {
                 }
             }
         });
-        self.child = Some((ch, stdin, rx, errbuf));
+        self.child = Some((ch, stdin, rx, errbuf, errthread));
     }
 
     fn reap(&mut self) -> (i32, i32, String) {
         use std::os::unix::process::ExitStatusExt;
-        if let Some((mut ch, stdin, _rx, eb)) = self.child.take() {
+        if let Some((mut ch, stdin, _rx, eb, errthread)) = self.child.take() {
             drop(stdin);
             let st = ch.wait().ok();
-            std::thread::sleep(Duration::from_millis(5));
+            // the reader ends at EOF of the dead worker's stderr: its last words (allocation
+            // failure / stack overflow message) are complete only after the join
+            let _ = errthread.join();
             let err = String::from_utf8_lossy(&eb.lock().unwrap()).to_string();
             let (sig, code) = match st {
                 Some(s) => (s.signal().unwrap_or(0), s.code().unwrap_or(-1)),
@@ -249,7 +251,7 @@ impl Supervisor {
             self.spawn();
         }
         let sent = {
-            let (_, stdin, _, _) = self.child.as_mut().unwrap();
+            let (_, stdin, _, _, _) = self.child.as_mut().unwrap();
             stdin.write_all(line.as_bytes()).and_then(|_| stdin.write_all(b"\n")).and_then(|_| stdin.flush())
         };
         if sent.is_err() {
@@ -257,13 +259,13 @@ impl Supervisor {
             return Reply::Died { signal, code, stderr };
         }
         let got = {
-            let (_, _, rx, _) = self.child.as_mut().unwrap();
+            let (_, _, rx, _, _) = self.child.as_mut().unwrap();
             rx.recv_timeout(timeout)
         };
         match got {
             Ok(l) => Reply::Line(l),
             Err(RecvTimeoutError::Timeout) => {
-                if let Some((ch, _, _, _)) = self.child.as_mut() {
+                if let Some((ch, _, _, _, _)) = self.child.as_mut() {
                     let _ = ch.kill();
                 }
                 let _ = self.reap();
